@@ -16,9 +16,9 @@ Step ==
   /\ l <= Len(Traces[tid]) /\ bad = ""
   /\ l' = l + 1 /\ UNCHANGED tid
   /\ LET e == Traces[tid][l] IN
-     CASE e.e = "sc" -> sc' = [on |-> TRUE, kind |-> e.kind, cap |-> e.cap, init |-> e.init, hist |-> e.hist] /\ bad' = ""
+     CASE e.e = "sc" -> sc' = [on |-> TRUE, kind |-> e.kind, cap |-> e.cap, init |-> e.init, hist |-> e.hist, pair |-> e.pair] /\ bad' = ""
        [] e.e = "snap" ->
-            LET want == Project(Run(New(sc.kind, sc.cap, sc.init), SubSeq(sc.hist, 1, e.i), 1)) IN
+            LET want == Project(RunP(New(sc.kind, sc.cap, sc.init), SubSeq(sc.hist, 1, e.i), 1, sc.pair)) IN
             /\ sc' = sc
             /\ bad' = IF e.level > sc.cap \/ Len(e.users) > sc.cap \/ Len(e.items) > sc.cap THEN "C19.capacity"
                       ELSE IF e.level # want.level THEN "C19.conservation"
